@@ -19,7 +19,7 @@ PROP = dict(
     level='proof',
     regen=['consts', 'profilearith'],
     extra=_extra,
-    theorems=['Fit.C05.C05_value_exact_full_fails', 'Fit.C05.C05_expansion_off'],
+    theorems=['Fit.C05.C05_F07_witness_fixed', 'Fit.C05.C05_expansion_off'],
     families=[dict(name='bits'), dict(name='accum'), dict(name='expand', spec=True, prop=True, shrink=False)],
     trusted_base=STD_TRUST + [
         "binary64 model (FitModel/F64.lean) tied to the hardware by the family f64 of C12",
